@@ -292,6 +292,58 @@ def step (d : D) (line : String) : D × String :=
           else "ok"
         (d, s!"panic\t{implCanon impl}\t{verdict}")
       | none => (d, "not-idle\tnot-idle\tbad-op")
+  | "query" :: kind :: rest =>
+    -- a solicited reply: requester call, the reply as input, the hand-off — as a run of the LTS
+    let implRes := (impl.splitOn " ").headD ""
+    let bad := impl.contains "wedged" || implRes == "hang" || implRes == "panic"
+    let finish (s' : Option Sys) (res want : String) : D × String :=
+      match s' with
+      | none => (d, s!"not-a-run\t{impl}\tbad-op")
+      | some s' =>
+        let s'' := { s' with cursorGot := [], clipGot := [] }
+        let verdict := if bad then s!"FAIL the requester or the input loop did not survive the query: {impl}"
+          else if implRes == want then "ok" else s!"FAIL the query must return {want}, got {implRes}"
+        ({ d with sys := s'' }, s!"{res} {canonState s''}\t{impl}\t{verdict}")
+    match kind, rest with
+    | "cursor", [r, c, mode] =>
+      match r.toInt?, c.toInt? with
+      | some r, some c =>
+        if mode == "reply" then
+          let p := params 1024 none
+          let s' := run p d.sys [.cursorCall, .input (.csi [] [[r], [c]] 82), .step]
+          let res := match s'.bind (·.cursorGot.getLast?) with
+            | some (a, b) => s!"{a - 1},{b - 1}"
+            | none => "none"
+          finish s' res s!"{r - 1},{c - 1}"
+        else finish (run (params 1024 none) d.sys [.cursorCall, .cursorTimeout]) "-1,-1" "-1,-1"
+      | _, _ => (d, "bad-op\tbad-op\tbad-op")
+    | "size", [h, w, hp, wp, mode] =>
+      match h.toInt?, w.toInt?, hp.toInt?, wp.toInt? with
+      | some h, some w, some hp, some wp =>
+        let caps := d.sys.vs.caps
+        if !(caps.reportSizeChars && caps.reportSizePixels) || caps.inBandResize then (d, s!"unsupported\tunsupported\t-")
+        else if mode == "reply" then
+          let p := params 1024 none
+          let s' := run p d.sys [.input (.csi [] [[4], [hp], [wp]] 116), .input (.csi [] [[8], [h], [w]] 116), .step, .sizeRecv]
+          let res := match s' with
+            | some t => s!"{t.vs.nextSize.cols},{t.vs.nextSize.rows},{t.vs.nextSize.xpix},{t.vs.nextSize.ypix}"
+            | none => "none"
+          finish s' res s!"{w},{h},{wp},{hp}"
+        else finish (some d.sys) "err" "err"
+      | _, _, _, _ => (d, "bad-op\tbad-op\tbad-op")
+    | "clip", mode :: seqf =>
+      match parseSeq seqf with
+      | some (q, _, b64) =>
+        if mode == "reply" then
+          let p := params 1024 b64
+          let s' := run p d.sys [.clipCall, .input q, .step]
+          let res := match s'.bind (·.clipGot.getLast?) with
+            | some v => s!"={cpsOut v}"
+            | none => "none"
+          finish s' res (match b64 with | some v => s!"={cpsOut v}" | none => "err")
+        else finish (run (params 1024 none) d.sys [.clipCall, .clipCancel]) "err" "err"
+      | none => (d, "bad-op\tbad-op\tbad-op")
+    | _, _ => (d, "bad-op\tbad-op\tbad-op")
   | "stream" :: rest =>
     ({ d with stream := true, wf := (kv rest "wf") == some "1", smallQueue := (kv rest "queue") != some "0" }, "-\t-\t-")
   | "report" :: rest =>
